@@ -353,7 +353,34 @@ type Child struct {
 
 // Start launches the lab binary. env entries are appended (e.g. GOMAXPROCS, TZ).
 func Start(bin string, raceLog string, env ...string) (*Child, error) {
-	cmd := exec.Command(bin)
+	return StartArgv([]string{bin}, raceLog, env...)
+}
+
+// NodeBin locates Node 22 (runs .ts by type stripping). Empty if absent.
+func NodeBin() string {
+	for _, c := range []string{os.Getenv("VERIF_NODE"), "/root/.nvm/versions/node/v22.22.2/bin/node"} {
+		if c == "" {
+			continue
+		}
+		if st, err := os.Stat(c); err == nil && !st.IsDir() {
+			return c
+		}
+	}
+	return ""
+}
+
+// StartNode launches node/bridge.mjs.
+func StartNode() (*Child, error) {
+	nb := NodeBin()
+	if nb == "" {
+		return nil, fmt.Errorf("node 22 not found")
+	}
+	return StartArgv([]string{nb, "--disable-warning=ExperimentalWarning", "--max-old-space-size=2048", filepath.Join(report.VerifDir, "node", "bridge.mjs")}, "")
+}
+
+// StartArgv launches an arbitrary JSONL-speaking child.
+func StartArgv(argv []string, raceLog string, env ...string) (*Child, error) {
+	cmd := exec.Command(argv[0], argv[1:]...)
 	cmd.Env = append(os.Environ(), env...)
 	if raceLog != "" {
 		cmd.Env = append(cmd.Env, "GORACE=halt_on_error=0 log_path="+raceLog)
